@@ -308,6 +308,13 @@ pub fn c11_spec(name: &str, rewrite: bool) -> WorldSpec {
     s.system.push(Row::new("長", 7, 7, 3000, P_NOUN).reading(&long('ア', 130)).norm(&long('亜', 127)).synonyms("3/4").structure("0/1"));
     s.system.push(Row::new("長い", 7, 7, 3000, P_NOUN).reading(&long('イ', 255)).norm("長い").dic_form(&format!("{}", base)).splits("C", &format!("{}/26", base), &format!("{}/26", base)).synonyms("9"));
     s.system.push(Row::new("い", 3, 3, 4000, P_PART).headword(&long('い', 128)).reading("イ"));
+    // ... of 256 and more units (both bytes of the prefix carry bits), counted in UTF-16 units (astral)
+    s.system.push(Row::new("大", 7, 7, 3000, P_NOUN).reading(&long('ウ', 256)).norm(&long('𠮷', 128)).synonyms("5/6").structure("0/1").splits("C", "0/1", "1/0"));
+    s.system.push(Row::new("大き", 7, 7, 3000, P_NOUN).headword(&long('大', 300)).reading(&long('エ', 1000)).synonyms("8"));
+    // arrays of 63, 64 and 127 items (the byte size of an array of 64 items no longer fits eight bits)
+    let arr = |n: usize| -> String { vec!["0"; n].join("/") };
+    s.system.push(Row::new("列", 7, 7, 3000, P_NOUN).splits("C", &arr(63), &arr(64)).structure(&arr(127)).synonyms("11/12"));
+    s.system.push(Row::new("列ぶ", 7, 7, 3000, P_NOUN).splits("C", &arr(64), &arr(100)).structure(&arr(65)).synonyms(&(0..100).map(|i| i.to_string()).collect::<Vec<_>>().join("/")));
     s
 }
 
